@@ -1224,6 +1224,137 @@ theorem close_fold_inv (sym i : Nat) (cs' rows' : List Candle) (t0 : Int) (ht0 :
     · exact Or.inl (Or.inr h)
     · exact Or.inr h
 
+/-- CLOSE WINDOW for one timeframe on a store whose 1m rows are `rows'` (`i + 1` of them, the first `i + 1` rows of the
+    normalised input `cs'`; fast simulator, chunk of `step` rows): the timeframe satisfies `StoreInv` afterwards — a completed window gets its candle, a forming
+    one needs none — the 1m rows and the other timeframes are untouched -/
+theorem close_step_skip (e : Engine M) (sym i step tf : Nat) (cs' rows' : List Candle) (t0 : Int)
+    (hstep : 0 < step) (hs : sym < e.stores.length) (htf : 0 < tf) (htf1 : tf ≠ 1) (ht0 : 0 < t0)
+    (hshort : (storeOf e sym).short = rows') (hlen : rows'.length = i + step) (hcs : cs'.take (i + step) = rows')
+    (hsp : Spaced t0 rows') (hpre : PreInv tf rows' (longOf (storeOf e sym) tf)) :
+    let e' := (if (i + step) % tf = 0 then
+        match generateCandle tf (Py.slice cs' (some ((i : Int) - (tf : Int) + step)) (some ((i : Int) + step))) False with
+        | .ok g => addCandle e sym tf g
+        | .error k => fail e k
+      else e)
+    sym < e'.stores.length ∧ (storeOf e' sym).short = rows' ∧ StoreInv tf rows' (longOf (storeOf e' sym) tf) ∧
+      (∀ m', m' ≠ tf → longOf (storeOf e' sym) m' = longOf (storeOf e sym) m') ∧ e'.cfg = e.cfg ∧
+      (e.err.isSome → e'.err.isSome) := by
+  have hne : rows' ≠ [] := by intro h; rw [h] at hlen; simp at hlen; omega
+  by_cases hb : (i + step) % tf = 0
+  · simp only [hb, if_true]
+    have hb' : rows'.length % tf = 0 := by rw [hlen]; exact hb
+    obtain ⟨hq, hfull⟩ := StoreProto.k0_of_boundary tf rows' htf hne hb'
+    have hk : StoreProto.k0 tf rows' * tf = i + step - tf := by
+      rw [hlen] at hfull
+      have : (StoreProto.k0 tf rows' + 1) * tf = StoreProto.k0 tf rows' * tf + tf := by rw [Nat.add_mul, Nat.one_mul]
+      omega
+    have htle : tf ≤ i + step := by
+      rw [hlen] at hfull
+      have : (StoreProto.k0 tf rows' + 1) * tf = StoreProto.k0 tf rows' * tf + tf := by rw [Nat.add_mul, Nat.one_mul]
+      omega
+    have hlencs : i + step ≤ cs'.length := by
+      have := congrArg List.length hcs
+      rw [List.length_take, hlen] at this; omega
+    have hsl : Py.slice cs' (some ((i : Int) - (tf : Int) + step)) (some ((i : Int) + step)) = rows'.drop (StoreProto.k0 tf rows' * tf) := by
+      have e1 : ((i : Int) - (tf : Int) + (step : Int)) = ((i + step - tf : Nat) : Int) := by omega
+      have e2 : ((i : Int) + (step : Int)) = ((i + step : Nat) : Int) := by omega
+      rw [e1, e2, slice_nat cs' (i + step - tf) (i + step) (by omega) hlencs, hcs, hk]
+    rw [hsl]
+    have hdl : (rows'.drop (StoreProto.k0 tf rows' * tf)).length = tf := by
+      rw [List.length_drop, hk, hlen]; omega
+    rw [generate_complete_eq tf _ hdl]
+    have hdne : rows'.drop (StoreProto.k0 tf rows' * tf) ≠ [] := by
+      intro h0; rw [h0] at hdl; simp at hdl; omega
+    obtain ⟨g, _, hagg, _, _⟩ := StoreProto.aggregate_some _ hdne
+    have hgen : generate tf (rows'.drop (StoreProto.k0 tf rows' * tf)) = .ok g := by rw [generate_is_aggregate, hagg]
+    rw [hgen]
+    simp only []
+    have hst := StoreFrame.storeOf_addCandle e sym tf g hs
+    simp only [htf1, if_false] at hst
+    refine ⟨by rw [StoreFrame.stores_length_addCandle]; exact hs, by rw [hst]; exact hshort, ?_, ?_, rfl, fun h => h⟩
+    · rw [hst, StoreFrame.longOf_setLong_same]
+      exact inv_of_window_candle tf rows' _ t0 g htf hne ht0 hsp hpre hgen
+    · intro m' hm'; rw [hst]; exact StoreFrame.longOf_setLong_other _ tf m' _ hm'
+  · simp only [hb, if_false]
+    have hb' : rows'.length % tf ≠ 0 := by rw [hlen]; exact hb
+    refine ⟨hs, hshort, inv_of_pre_forming tf rows' _ htf hb' hpre, ?_, ?_, ?_⟩
+    all_goals first | trivial | (intros; trivial) | (intros; rfl) | (intro h; exact h)
+
+/-- the CLOSE WINDOW loop of an iteration (over any list of the symbol's timeframes, repetitions allowed) -/
+theorem close_fold_skip (sym i step : Nat) (hstep : 0 < step) (cs' rows' : List Candle) (t0 : Int) (ht0 : 0 < t0) (T : List Nat)
+    (hT : ∀ m ∈ T, 0 < m ∧ m ≠ 1) (hlen : rows'.length = i + step) (hcs : cs'.take (i + step) = rows') (hsp : Spaced t0 rows')
+    (L : List Nat) (hL : ∀ m ∈ L, m ∈ T) :
+    ∀ (e : Engine M) (D : List Nat), sym < e.stores.length → (storeOf e sym).short = rows' →
+      (∀ m ∈ T, PreInv m rows' (longOf (storeOf e sym) m)) → (∀ m ∈ D, StoreInv m rows' (longOf (storeOf e sym) m)) →
+      sym < (L.foldl (fun (e : Engine M) (tf : Nat) =>
+          if (i + step) % tf = 0 then
+            match generateCandle tf (Py.slice cs' (some ((i : Int) - (tf : Int) + step)) (some ((i : Int) + step))) False with
+            | .ok g => addCandle e sym tf g
+            | .error k => fail e k
+          else e) e).stores.length ∧
+      (storeOf (L.foldl (fun (e : Engine M) (tf : Nat) =>
+          if (i + step) % tf = 0 then
+            match generateCandle tf (Py.slice cs' (some ((i : Int) - (tf : Int) + step)) (some ((i : Int) + step))) False with
+            | .ok g => addCandle e sym tf g
+            | .error k => fail e k
+          else e) e) sym).short = rows' ∧
+      (∀ m ∈ D ++ L, StoreInv m rows' (longOf (storeOf (L.foldl (fun (e : Engine M) (tf : Nat) =>
+          if (i + step) % tf = 0 then
+            match generateCandle tf (Py.slice cs' (some ((i : Int) - (tf : Int) + step)) (some ((i : Int) + step))) False with
+            | .ok g => addCandle e sym tf g
+            | .error k => fail e k
+          else e) e) sym) m)) ∧
+      (L.foldl (fun (e : Engine M) (tf : Nat) =>
+          if (i + step) % tf = 0 then
+            match generateCandle tf (Py.slice cs' (some ((i : Int) - (tf : Int) + step)) (some ((i : Int) + step))) False with
+            | .ok g => addCandle e sym tf g
+            | .error k => fail e k
+          else e) e).cfg = e.cfg ∧
+      (e.err.isSome → (L.foldl (fun (e : Engine M) (tf : Nat) =>
+          if (i + step) % tf = 0 then
+            match generateCandle tf (Py.slice cs' (some ((i : Int) - (tf : Int) + step)) (some ((i : Int) + step))) False with
+            | .ok g => addCandle e sym tf g
+            | .error k => fail e k
+          else e) e).err.isSome) := by
+  induction L with
+  | nil => intro e D hs hsh _ hD; exact ⟨hs, hsh, by simpa using hD, rfl, fun h => h⟩
+  | cons m rest ih =>
+    intro e D hs hsh hpre hD
+    have hmT : m ∈ T := hL m List.mem_cons_self
+    obtain ⟨hm, hm1⟩ := hT m hmT
+    have hne : rows' ≠ [] := by intro h; rw [h] at hlen; simp at hlen; omega
+    obtain ⟨s1, s2, s3, s4, s5, s6⟩ := close_step_skip e sym i step m cs' rows' t0 hstep hs hm hm1 ht0 hsh hlen hcs hsp (hpre m hmT)
+    simp only [List.foldl_cons]
+    revert s1 s2 s3 s4 s5 s6
+    generalize (if (i + step) % m = 0 then
+        match generateCandle m (Py.slice cs' (some ((i : Int) - (m : Int) + step)) (some ((i : Int) + step))) False with
+        | .ok g => addCandle e sym m g
+        | .error k => fail e k
+      else e) = e1
+    intro s1 s2 s3 s4 s5 s6
+    have hpre' : ∀ m' ∈ T, PreInv m' rows' (longOf (storeOf e1 sym) m') := by
+      intro m' hm'
+      by_cases h : m' = m
+      · subst h; exact pre_of_inv m' rows' _ (hT m' hm').1 hne s3
+      · rw [s4 m' h]; exact hpre m' hm'
+    have hD' : ∀ m' ∈ D ++ [m], StoreInv m' rows' (longOf (storeOf e1 sym) m') := by
+      intro m' hm'
+      by_cases h : m' = m
+      · subst h; exact s3
+      · rw [s4 m' h]
+        rcases List.mem_append.mp hm' with h1 | h1
+        · exact hD m' h1
+        · exact absurd (List.mem_singleton.mp h1) h
+    obtain ⟨r1, r2, r3, r4, r5⟩ := ih (fun x hx => hL x (List.mem_cons_of_mem _ hx)) e1 (D ++ [m]) s1 s2 hpre' hD'
+    refine ⟨r1, r2, ?_, by rw [r4, s5], fun h => r5 (s6 h)⟩
+    intro m' hm'
+    apply r3 m'
+    simp only [List.mem_append, List.mem_cons, List.mem_singleton, List.not_mem_nil, or_false] at hm' ⊢
+    rcases hm' with h | h | h
+    · exact Or.inl (Or.inl h)
+    · exact Or.inl (Or.inr h)
+    · exact Or.inr h
+
 theorem mem_eraseDups_nat (l : List Nat) (m : Nat) : m ∈ l.eraseDups ↔ m ∈ l := by
   induction hn : l.length using Nat.strong_induction_on generalizing l with
   | _ n ih =>
